@@ -83,6 +83,9 @@ WHITELIST = [
     ("_get_spans_for_2_fields_njit", ["arr", "arr", "arr"]),
     ("_get_spans_for_multi_fields_njit", ["arr2", "arr"]),
     ("_get_spans_for_index_string_field", ["arr", "arr"]),
+    ("compare_rows_for_journalling", ["arr", "arr", "arr", "arr", "barr"]),
+    ("generate_ordered_map_to_left_both_unique", ["arr", "arr", "arr", "int"]),
+    ("generate_ordered_map_to_left_right_unique", ["arr", "arr", "arr", "int"]),
 ]
 
 LEAN_T = {"int": "Int", "bool": "Bool", "arr": "List Int", "barr": "List Bool", "opt_arr": "Option (List Int)",
@@ -133,6 +136,41 @@ def is_none(n):
     return isinstance(n, ast.Constant) and n.value is None
 
 
+def drop_message_strings(body):
+    """`msg = "text"` whose only uses are the arguments of `raise …(msg)` carries no behaviour: drop the assignment"""
+    strs = set()
+    for b in body:
+        for n in ordered_nodes(b):
+            if isinstance(n, ast.Assign) and len(n.targets) == 1 and isinstance(n.targets[0], ast.Name) and \
+                    isinstance(n.value, ast.Constant) and isinstance(n.value.value, str):
+                strs.add(n.targets[0].id)
+    in_raise = set()
+    for b in body:
+        for n in ordered_nodes(b):
+            if isinstance(n, ast.Raise):
+                in_raise |= {id(m) for m in ordered_nodes(n)}
+    for b in body:
+        for n in ordered_nodes(b):
+            if isinstance(n, ast.Name) and n.id in strs and id(n) not in in_raise and isinstance(n.ctx, ast.Load):
+                strs.discard(n.id)
+            if isinstance(n, ast.Assign) and any(isinstance(t, ast.Name) and t.id in strs for t in n.targets) and \
+                    not (isinstance(n.value, ast.Constant) and isinstance(n.value.value, str)):
+                strs.discard(n.targets[0].id)
+
+    def strip(stmts):
+        out = []
+        for st in stmts:
+            if isinstance(st, ast.Assign) and len(st.targets) == 1 and isinstance(st.targets[0], ast.Name) and \
+                    st.targets[0].id in strs:
+                continue
+            for f in ("body", "orelse"):
+                if hasattr(st, f) and isinstance(getattr(st, f), list):
+                    setattr(st, f, strip(getattr(st, f)) or ([ast.Pass()] if f == "body" else []))
+            out.append(st)
+        return out
+    return strip(body)
+
+
 def rewrite_continue(stmts, in_loop=False):
     """`if c: A; continue` directly in a loop body, followed by `rest`  ≡  `if c: A else: rest` (the only form of `continue`
     that is accepted; any other `continue` is rejected later by `number_loops`)"""
@@ -167,7 +205,7 @@ class Kernel:
             if not (isinstance(d, ast.Constant) or (isinstance(d, ast.UnaryOp) and isinstance(d.operand, ast.Constant))):
                 raise Unsupported("non-constant default value")
         self.ptypes = list(ptypes)
-        self.body = rewrite_continue(strip_doc(fn.body))
+        self.body = rewrite_continue(drop_message_strings(strip_doc(fn.body)))
         self.rename()
         self.env = {f"p{k}": ("arr" if t == "opt_arr" else t) for k, t in enumerate(ptypes)}
         self.opt = {f"p{k}" for k, t in enumerate(ptypes) if t == "opt_arr"}    # optional parameters (static)
@@ -436,6 +474,12 @@ class Kernel:
             isb = dt is not None and ast.unparse(dt) in ("bool", "np.bool_", "numpy.bool_", "np.bool")
             tmp = self.fresh()
             return ("barr" if isb else "arr"), tmp, b + [(tmp, f"{'npZerosB' if isb else 'npZeros'} {x}")]
+        if f in ("np.full", "numpy.full") and len(n.args) == 2:
+            (tn, xn, bn), (tv, xv, bv) = self.expr(n.args[0], defined), self.expr(n.args[1], defined)
+            if tn != "int" or tv != "int" or any(kw.arg != "dtype" for kw in n.keywords):
+                raise Unsupported("np.full")
+            tmp = self.fresh()
+            return "arr", tmp, bn + bv + [(tmp, f"npFull {xn} {xv}")]
         if f in ("np.zeros_like", "numpy.zeros_like") and len(n.args) == 1:
             t, x, b = self.expr(n.args[0], defined)
             if t != "arr" or any(kw.arg != "dtype" for kw in n.keywords):
@@ -709,9 +753,17 @@ class Kernel:
         self.read_unbound = set()
         self.maybe_none = set(self.opt)
         body = list(self.body)
-        if not body or not isinstance(body[-1], ast.Return) or body[-1].value is None:
-            raise Unsupported("the function does not end with `return <value>`")
-        ret = body.pop()
+        if body and isinstance(body[-1], ast.Return):
+            if body[-1].value is None:
+                raise Unsupported("return without a value")
+            ret = body.pop()
+        else:
+            # the function falls off its end (returns None): its result is what it stored into its array parameters
+            if any(isinstance(n, ast.Return) for b in body for n in ordered_nodes(b)):
+                raise Unsupported("a function that returns a value on some paths only")
+            if not self.mutated:
+                raise Unsupported("the function returns nothing and stores into none of its parameters")
+            ret = ast.Return(value=ast.Tuple(elts=[], ctx=ast.Load()))
         defined = {f"p{k}" for k in range(len(self.ptypes))}
         self.ret_types = None
         main, d = self.block(body, defined, None, top=True, final=lambda d: self.ret_final(ret, d))
@@ -755,7 +807,7 @@ class Kernel:
     def ret_final(self, ret, d):
         """`return E` (E a tuple: a product); the final contents of the arrays the kernel wrote into are appended"""
         if isinstance(ret.value, ast.Tuple):
-            parts = [self.expr(e, d) for e in ret.value.elts]
+            parts = [self.expr(e, d) for e in ret.value.elts]       # (empty for a function without `return`)
         else:
             parts = [self.expr(ret.value, d)]
         parts += [self.var(p, d) for p in self.mutated]
